@@ -269,7 +269,9 @@ def case_history_rich(hist):
 # kbmag records
 # ------------------------------------------------------------------------------------------
 def render_record(names, table, style, interval):
-    """Our own printer of a kbmag word-acceptor record (independent of the parser)."""
+    """Our own printer of a kbmag word-acceptor record (independent of the parser).  Styles 1 and 2 write the
+    alphabet names as quoted strings (GAP accepts both forms)."""
+    quoted = style in (1, 2)
     k = len(table)
     nl = {0: "\n", 1: "\n   ", 2: " ", 3: "\n\t"}[style]
     sp = {0: " ", 1: "  ", 2: "", 3: " "}[style]
@@ -287,7 +289,7 @@ def render_record(names, table, style, interval):
             "alphabet" + sp + ":=" + sp + "rec(" + nl +
             "type := \"identifiers\"," + nl + "size := %d," % len(names) + nl +
             "format" + sp + ":=" + sp + "\"dense\"," + nl +
-            "names" + sp + ":=" + sp + "[" + ",".join(names) + "]" + nl + ")," + nl +
+            "names" + sp + ":=" + sp + "[" + ",".join(('"%s"' % x) if quoted else x for x in names) + "]" + nl + ")," + nl +
             "states := rec(" + nl + "type := \"simple\"," + nl + "size := %d" % k + nl + ")," + nl +
             "flags := [\"DFA\",\"minimized\",\"BFS\",\"accessible\",\"trim\"]," + nl +
             "initial" + sp + ":=" + sp + init + "," + nl +
